@@ -518,12 +518,33 @@ def run_replay(spec, inputs):
         with unpatched():
             out = f(dict(inputs))
     except symx.Unsupported as e:
-        return {"ok": True, "detail": "replay error: %r" % (e,)}
+        # a proxy reached the replay: state that the lifted run of (changed) code left behind in this process -- a shared default list,
+        # a module-level cache.  The real code is then asked once more in a process of its own.
+        sub = _replay_in_fresh_process(spec, inputs)
+        return sub if sub is not None else {"ok": True, "detail": "replay error: %r" % (e,)}
     except Exception as e:
         return {"ok": True, "detail": "replay raised %s: %s" % (type(e).__name__, e)}
     if not isinstance(out, dict):
         out = {"ok": bool(out), "detail": ""}
     return out
+
+
+def _replay_in_fresh_process(spec, inputs):
+    if os.environ.get("VERIF_IN_REPLAY_PROCESS"):
+        return None
+    code = ("import sys, json; sys.path.insert(0, %r); sys.path.insert(0, %r); from vf import core; "
+            "print('@@' + json.dumps(core.run_replay(%r, json.loads(sys.stdin.read())), default=str))" % (REPO, VERIF, spec))
+    try:
+        r = subprocess.run([sys.executable, "-c", code], input=json.dumps(inputs, default=float), capture_output=True, text=True, timeout=600,
+                           env=dict(os.environ, VERIF_IN_REPLAY_PROCESS="1"), cwd=VERIF)
+        for line in r.stdout.splitlines():
+            if line.startswith("@@"):
+                out = json.loads(line[2:])
+                out["detail"] = str(out.get("detail", "")) + " [replayed in a fresh process]"
+                return out
+    except Exception:
+        pass
+    return None
 
 
 def close(a, b, rel=1e-9, abs_=1e-12):
